@@ -2,6 +2,7 @@
 (T1, U1, RC). Narrow: can execute + row convention."""
 from ..rules import dtype_rules as D
 from ..rules import hyp_rules as H
+from ..rules import degree_rules as DG
 from ..rules.common import u1
 
 HYP = H.HYP
@@ -22,6 +23,7 @@ def run(ctx):
     ctx.do(H.rule_row_convention)
     ctx.do(H.rule_g2)
     ctx.do(H.rule_odd1)
+    ctx.do(DG.rule_hd1)
     ctx.do(u1, ENTRIES, min_functions=15)
     ctx.r.assume("every numerical clause (origin -> p, distances along "
                  "geodesics, law of cosines, polygon angles) is not decided")
